@@ -827,7 +827,11 @@ class Step:
                 else:
                     lid = ref_id(lhs)
                     if lid is not None and lid in st.env:
-                        st.env[lid] = ("expr", "%s %s %s" % (ltxt, op, ctext(rhs)))
+                        cur = st.env[lid]
+                        if op == "^=" and cur[0] == "octet" and t[0] == "const":
+                            st.env[lid] = ("octet", (cur[1] ^ t[1]) & 0xFF, cur[2])     # a copy of the octet, un-escaped in place
+                        else:
+                            st.env[lid] = ("expr", "%s %s %s" % (ltxt, op, ctext(rhs)))
                         st.env[("txt", lid)] = "(%s %s %s)" % (st.env.get(("txt", lid), ltxt), op[:-1], self.resolve(rhs, snap))
                     st.events.append(("compound", ltxt, op, t, node.id, line))
                     self.invalidate(st, ltxt)
